@@ -113,7 +113,9 @@ struct c14_session : public vsim_session {
         o << ":";
         for (size_t i = 0; i < k.m_sigma.size(); i++) o << (i ? "," : "") << vs_hex(k.m_sigma[i]);
       }
-      o << " zed=" << vs_hex(op->m_zed) << " kdenorm=" << vs_hex(op->m_kdenorm) << "\n";
+      o << " zed=" << vs_hex(op->m_zed) << " kdenorm=" << vs_hex(op->m_kdenorm)
+        << " sumw=" << vs_hex(op->m_sum_weights) << " sumw2=" << vs_hex(op->m_sum_weights2)
+        << " neff=" << vs_hex(op->m_neff) << " rct=" << vs_hex(op->m_rct) << " kbt=" << vs_hex(op->m_kbt) << "\n";
       return true;
     }
     if (cmd == "share") {
